@@ -824,7 +824,16 @@ class Data(BaseCartesianData):
             if len(self._components) == 0:
                 return True
             else:
-                if all(comp.shape == () for comp in self._components.values()):
+                # Coordinate and derived components take their shape from the
+                # data set. When a session is loaded the coordinate components
+                # are restored before the first array, so as long as the data
+                # set holds them but no array (and hence has no shape yet) an
+                # array of any shape can be added. A data set that holds 0-d
+                # arrays, on the other hand, only accepts further 0-d arrays.
+                existing = list(self._components.values())
+                if (self._shape == () and
+                        any(isinstance(comp, CoordinateComponent) for comp in existing) and
+                        all(isinstance(comp, (CoordinateComponent, DerivedComponent)) for comp in existing)):
                     return True
                 else:
                     return component.shape == self.shape
